@@ -22,7 +22,7 @@ RULE = (
     "latent_time=False), one sample per non-empty prefix of its production (as strings), label = (obs(candidate) == obs(gold)), spans ignored; must equal make_partial_rule_dataset / run_corpus output "
     "element-wise.  Generated entries: golds of every result type (Time, closed/open Interval, Duration) incl. golds equal to a candidate up to span.  Monotonicity: every small-scope training set "
     "(all sequences of 2..3 labelled documents over {a,b}, length<=3) x every positive document x k in {1,2,5} extra copies: log-odds of that document's own trace must not decrease (1e-12).  "
-    "Non-trivial = entry with at least one positive and one negative sample / training set where the score strictly increases; distinct = distinct entries / (training set, document, k)."
+    "Plus class-imbalanced sets: distinct labelled documents (length<=2) with multiplicities {1,3,9} (2 documents) / {1,9} (3 documents); thorough {1,2,4,8}.  Non-trivial = entry with at least one positive and one negative sample / training set where the score strictly increases; distinct = distinct entries / (training set, document, k)."
 )
 ASSUMPTIONS = [
     "value equality = observation tuples (C18 establishes that the classes' own equality agrees)",
@@ -55,9 +55,9 @@ GENERATED = [
 ]
 
 
-def _small_scope():
+def _small_scope(maxlen=3):
     docs = []
-    for L in (1, 2, 3):
+    for L in range(1, maxlen + 1):
         docs.extend(list(d) for d in itertools.product(("a", "b"), repeat=L))
     return [(d, y) for d in docs for y in (True, False)]
 
@@ -76,18 +76,30 @@ def plan(tier, seed):
 
     def gen():
         for i in range(len(ds)):
-            yield ("entry", i, 10)
+            yield ("entry", i, 10, "dummy")
+            if tier == "thorough" or i % 4 == 0:
+                yield ("entry", i, 10, "shipped")  # a path-dependent scorer re-streams a value with a better score: those samples count too
             if tier == "thorough":
-                yield ("entry", i, 0)
+                yield ("entry", i, 0, "dummy")
         for g in GENERATED:
             for d in (0, 10):
-                yield ("gen",) + g + (d,)
+                for sk in ("dummy", "shipped"):
+                    yield ("gen",) + g + (d, sk)
         for i in range(len(corp)):
             yield ("corpus", i, tier)
         for k in (2, 3):
             for idx in itertools.product(range(n), repeat=k):
                 if len({ld[i][1] for i in idx}) == 2:
                     yield ("mono", idx)
+        # class-imbalanced training sets: 2..3 distinct labelled documents (length <= 2) with multiplicities
+        ld2 = _small_scope(2)
+        for k in (2, 3):
+            mults = ((1, 3, 9) if k == 2 else (1, 9)) if tier == "quick" else (1, 2, 4, 8)
+            for idx in itertools.product(range(len(ld2)), repeat=k):
+                if len({ld2[i][1] for i in idx}) == 2 and len(set(idx)) == k:
+                    for mm in itertools.product(mults, repeat=k):
+                        if max(mm) > 1:
+                            yield ("mono2", idx, mm)
 
     space = {"dataset_entries": len(ds), "corpus_triples": len(corp), "generated_entries": len(GENERATED), "small_scope_training_sets": sum(1 for k in (2, 3) for idx in itertools.product(range(n), repeat=k) if len({ld[i][1] for i in idx}) == 2), "copies": [1, 2, 5]}
     return {"space": space, "cases": gen(), "chunk": 16, "hash_distinct": True}
@@ -122,14 +134,15 @@ def run_case(case):
     if kind in ("entry", "gen"):
         if kind == "entry":
             e = _dataset()[case[1]]
-            text, ts, gold_s, depth = e["text"], datetime.strptime(e["ref_time"], "%Y-%m-%dT%H:%M:%S"), e["gold_parse"], case[2]
+            text, ts, gold_s, depth, sk = e["text"], datetime.strptime(e["ref_time"], "%Y-%m-%dT%H:%M:%S"), e["gold_parse"], case[2], case[3]
         else:
-            _, text, ts_s, gold_s, depth = case
+            _, text, ts_s, gold_s, depth, sk = case
             ts = ts_of(ts_s)
+        mk = (lambda: DummyScorer()) if sk == "dummy" else (lambda: lib()[2]._DEFAULT_SCORER)
         gold = parse_nb_string(gold_s)
         entry = TimeParseEntry(text=text, ts=ts, gold=gold)
-        got = list(make_partial_rule_dataset([entry], scorer=DummyScorer(), timeout=0, max_stack_depth=depth))
-        exp = _expected(text, ts, obs(gold), depth, DummyScorer())
+        got = list(make_partial_rule_dataset([entry], scorer=mk(), timeout=0, max_stack_depth=depth))
+        exp = _expected(text, ts, obs(gold), depth, mk())
         _cmp(got, exp, "make_partial_rule_dataset({!r}, gold {})".format(text, gold_s), v, "partial_rule_dataset")
         labels = {y for _, y in exp}
         return {"o": kind + ":" + ("ok" if not v else "bad"), "nt": len(labels) == 2, "v": v, "st": {"samples": len(exp), "positive_samples": sum(1 for _, y in exp if y)}}
@@ -163,12 +176,19 @@ def run_case(case):
         _cmp(list(zip(Xs, ys)), exp, "run_corpus({!r}, {})".format(target, tests), v, "run_corpus")
         labels = {y for _, y in exp}
         return {"o": "corpus:" + ("ok" if not v else "bad"), "nt": len(labels) == 2, "v": v, "st": {"samples": len(exp)}}
-    if kind == "mono":
+    if kind in ("mono", "mono2"):
         from ctparse.nb_scorer import train_naive_bayes
 
-        ld = _small_scope()
-        X = [ld[i][0] for i in case[1]]
-        y = [ld[i][1] for i in case[1]]
+        if kind == "mono":
+            ld = _small_scope()
+            X = [ld[i][0] for i in case[1]]
+            y = [ld[i][1] for i in case[1]]
+        else:
+            ld = _small_scope(2)
+            X, y = [], []
+            for i, mlt in zip(case[1], case[2]):
+                X += [ld[i][0]] * mlt
+                y += [ld[i][1]] * mlt
         strict = False
 
         def lo(model, doc):
